@@ -58,5 +58,85 @@ theorem ad_def (a b : Vec ℝ 6) :
   fin_cases i <;> fin_cases j <;>
     simp [SE3.ad, SE3.hat, SE3.blk22, SE3.tw, SE3.tv, SO3.hat, mzero, mmul, mulVec, msub, vsum] <;> ring
 
+/-- `matrix g · hat a = hat (Ad g · a) · matrix g` for unit quaternion part -/
+theorem Ad_def_entry (g : Vec ℝ 7) (h : IsUnit g) (a : Vec ℝ 6) (i j : Fin 4) :
+    (mmul (SE3.matrix g) (SE3.hat a)) i j = (mmul (SE3.hat (mulVec (SE3.Ad g) a)) (SE3.matrix g)) i j := by
+  unfold IsUnit UnitQ at h
+  fin_cases i <;> fin_cases j <;>
+  simp [SE3.Ad, SE3.matrix, SE3.hat, SE3.blk22, SE3.so3, SE3.r3, SE3.tw, SE3.tv, mzero,
+      SO3.matrix, SO3.hat, mmul, mulVec, vsum] at h ⊢ <;> first | ring1 | grind
+
+theorem Ad_def (g : Vec ℝ 7) (h : IsUnit g) (a : Vec ℝ 6) :
+    mmul (SE3.matrix g) (SE3.hat a) = mmul (SE3.hat (mulVec (SE3.Ad g) a)) (SE3.matrix g) := by
+  ext i j; exact Ad_def_entry g h a i j
+
+/-! #### matrix homomorphism and right inverse (local copies of C01 facts) -/
+
+/-- homogeneous matrix `[R t; 0 1]` -/
+def homRt (R : Mat ℝ 3 3) (t : Vec ℝ 3) : Mat ℝ 4 4 := (.of (fun i j =>
+  if hi : i.val < 3 then
+    if hj : j.val < 3 then R ⟨i.val, hi⟩ ⟨j.val, hj⟩ else t ⟨i.val, hi⟩
+  else if j.val < 3 then 0 else 1))
+
+theorem matrix_eq_homRt (g : Vec ℝ 7) : SE3.matrix g = homRt (SO3.matrix (SE3.so3 g)) (SE3.r3 g) := by
+  ext i j
+  fin_cases i <;> fin_cases j <;> simp [SE3.matrix, homRt, SE3.r3]
+
+theorem homRt_mul (R R' : Mat ℝ 3 3) (t t' : Vec ℝ 3) :
+    mmul (homRt R t) (homRt R' t') = homRt (mmul R R') (vadd (mulVec R t') t) := by
+  ext i j
+  fin_cases i <;> fin_cases j <;> simp [homRt, mmul, mulVec, vadd, vsum]
+
+theorem so3_mk7 (t : Vec ℝ 3) (q : Vec ℝ 4) : SE3.so3 (SE3.mk7 t q) = q := by
+  ext i; fin_cases i <;> simp [SE3.so3, SE3.mk7]
+
+theorem r3_mk7 (t : Vec ℝ 3) (q : Vec ℝ 4) : SE3.r3 (SE3.mk7 t q) = t := by
+  ext i; fin_cases i <;> simp [SE3.r3, SE3.mk7]
+
+theorem unit_composition (a b : Vec ℝ 7) (ha : IsUnit a) (hb : IsUnit b) :
+    IsUnit (SE3.composition a b) := by
+  unfold IsUnit SE3.composition
+  rw [so3_mk7]; exact so3_unit_composition _ _ ha hb
+
+theorem matrix_composition (a b : Vec ℝ 7) (ha : IsUnit a) (hb : IsUnit b) :
+    SE3.matrix (SE3.composition a b) = mmul (SE3.matrix a) (SE3.matrix b) := by
+  rw [matrix_eq_homRt, matrix_eq_homRt a, matrix_eq_homRt b, homRt_mul]
+  unfold SE3.composition
+  rw [so3_mk7, r3_mk7, so3_matrix_composition _ _ ha hb, memoM_eq']
+
+theorem homRt_ident : homRt (ident 3) (vzero 3) = ident 4 := by
+  ext i j
+  fin_cases i <;> fin_cases j <;> simp [homRt, ident, vzero]
+
+theorem matrix_right_inverse (g : Vec ℝ 7) (h : IsUnit g) :
+    ∃ N, mmul (SE3.matrix g) N = ident 4 := by
+  refine ⟨homRt (transpose (SO3.matrix (SE3.so3 g)))
+    (vneg (mulVec (transpose (SO3.matrix (SE3.so3 g))) (SE3.r3 g))), ?_⟩
+  have hO := so3_matrix_mul_transpose _ h
+  rw [matrix_eq_homRt, homRt_mul, hO, ← homRt_ident]
+  congr 1
+  have e : mulVec (SO3.matrix (SE3.so3 g)) (vneg (mulVec (transpose (SO3.matrix (SE3.so3 g))) (SE3.r3 g)))
+      = vneg (SE3.r3 g) := by
+    have : vneg (mulVec (transpose (SO3.matrix (SE3.so3 g))) (SE3.r3 g))
+        = mulVec (transpose (SO3.matrix (SE3.so3 g))) (vneg (SE3.r3 g)) := by
+      ext i; simp [mulVec_apply, vneg]
+    rw [this, mulVec_mulVec, hO, mulVec_ident]
+  rw [e]; ext i; simp [vadd, vneg, vzero]
+
+theorem Ad_composition (g₁ g₂ : Vec ℝ 7) (h₁ : IsUnit g₁) (h₂ : IsUnit g₂) :
+    SE3.Ad (SE3.composition g₁ g₂) = mmul (SE3.Ad g₁) (SE3.Ad g₂) :=
+  Ad_comp_of (SE3.model : LieModel ℝ) IsUnit vee_hat (fun g a h => Ad_def g h a)
+    unit_composition matrix_composition matrix_right_inverse g₁ g₂ h₁ h₂
+
+theorem adjointRep : AdjointRep (SE3.model : LieModel ℝ) IsUnit InAlgebra where
+  vee_hat := vee_hat
+  hat_inAlg := hat_inAlgebra
+  hat_vee := hat_vee
+  hat_add := hat_add
+  hat_smul := hat_smul
+  Ad_def := fun g a h => Ad_def g h a
+  ad_def := ad_def
+  Ad_comp := Ad_composition
+
 end SE3
 end C03
